@@ -178,7 +178,45 @@ def decode_dval(xs, i=0):
             items.append("(" + k + " " + v + ")")
         items.sort()
         return "(map" + "".join(" " + s for s in items) + ")", j
+    if t == 20:
+        return "(fn)", i + 1
+    if t == 21:
+        n = xs[i + 1]
+        j = i + 2
+        items = []
+        for _ in range(n):
+            ln = xs[j]
+            name = "".join(chr(c) for c in xs[j + 1:j + 1 + ln])
+            v, j = decode_dval(xs, j + 1 + ln)
+            items.append("(" + name + " " + v + ")")
+        return "(obj" + "".join(" " + s for s in items) + ")", j
     raise ValueError("bad encoding %r at %d" % (xs, i))
+
+
+def decode_result(xs):
+    """enc_result of Model/EncEval.v -> ('val', canon) | ('err', canon) | ('host', name) | ('fuel',) | ('unmodelled',)"""
+    if xs[0] == 0:
+        return ("val", decode_dval(xs, 1)[0])
+    if xs[0] == 1:
+        return ("err", decode_dval(xs, 1)[0])
+    if xs[0] == 2:
+        return ("host", HOSTCODE.get(xs[1], str(xs[1])))
+    if xs[0] == 3:
+        return ("fuel",)
+    if xs[0] == 4:
+        return ("unmodelled",)
+    return ("control",)
+
+
+def impl_result(out):
+    """vlib.impl.outcome -> the same shape (error value kept, message dropped)"""
+    if out[0] == "val":
+        return ("val", out[1])
+    if out[0] == "err":
+        return ("err", out[1])
+    if out[0] == "host":
+        return ("host", out[1])
+    return tuple(out[:1])
 
 
 HOSTCODE = {1: "IndexError", 2: "ValueError", 3: "ZeroDivisionError", 4: "TypeError", 5: "KeyError",
